@@ -147,6 +147,12 @@ static std::string run_history(Ctx& c, size_t ii, const std::vector<uint64_t>& t
         eo.overrides[fi] = ov;
         Encoded em = ref_encode(*argsH, args, eo);
         reqb.insert(reqb.end(), em.bytes.begin(), em.bytes.end());
+      } else if (I.selector_bits == 32 && tp.below(2)) {   // a 64-bit-class selector whose LOW half is a bound 32-bit selector
+        const uint64_t wide = M.selector | ((uint64_t)(1 + tp.below(1000)) << 32);
+        reqb.clear(); reqb.push_back(0x83); for (int i = 0; i < 8; i++) reqb.push_back((uint8_t)(wide >> (8 * i)));
+        sel_len = reqb.size();
+        reqb.insert(reqb.end(), ea.bytes.begin(), ea.bytes.end());
+        how = fmt("selector %llx sent as the 64-bit value %llx", (unsigned long long)M.selector, (unsigned long long)wide);
       } else {           // selector corrupted: wrong class / unknown value
         Value s; s.u = M.selector ^ (1ull << tp.below((uint64_t)I.selector_bits));
         reqb = ref_encode(*s_int(I.selector_bits, false), s).bytes; sel_len = reqb.size();
